@@ -102,7 +102,9 @@ fn change_strategy() -> impl Strategy<Value = Change> {
     )
 }
 
-fn case_strategy() -> impl Strategy<Value = Case> {
+/// `flip_backend` alternates the server backend between shards so that both
+/// backends are covered whatever the seed.
+fn case_strategy(flip_backend: bool) -> impl Strategy<Value = Case> {
     (
         any::<bool>(),
         any::<[u8; 32]>(),
@@ -117,8 +119,8 @@ fn case_strategy() -> impl Strategy<Value = Case> {
         proptest::collection::vec(any::<u8>(), 1..600),
     )
         .prop_map(
-            |(sqlite, key_seed, initial_notes, extra_folder, changes, revoke_via, file)| Case {
-                sqlite,
+            move |(sqlite, key_seed, initial_notes, extra_folder, changes, revoke_via, file)| Case {
+                sqlite: sqlite ^ flip_backend,
                 key_seed,
                 initial_notes,
                 extra_folder,
@@ -587,7 +589,9 @@ impl World {
         }
         for r in out.records[first..].iter_mut() {
             r.info.nontrivial = nontrivial;
-            r.info.class(if nontrivial {
+            r.info.class(if step.control_conflict {
+                "control/409-account-exists-by-design"
+            } else if nontrivial {
                 "control/accepted-and-effective"
             } else {
                 "control/accepted-no-effect"
@@ -952,13 +956,9 @@ impl World {
             if r.status != 101 {
                 out.note(format!("websocket control returned {} (expected 101)", r.status));
             }
-            // the control's connection was dropped: wait until it is gone
-            for _ in 0..200 {
-                if hb(num_connections(&self.client, &self.server).await, "connections")? == 0 {
-                    break;
-                }
-                tokio::time::sleep(std::time::Duration::from_millis(10)).await;
-            }
+            // drop the control's connection and wait until it is gone
+            drop(r);
+            hb(wait_no_connections(&self.client, &self.server).await, "websocket close")?;
         }
 
         // --- PUT on the existing account, then DELETE, then re-create ------
@@ -1396,7 +1396,7 @@ async fn access_file_case(case: &Case, case_hash: u64, out: &mut Outcome) -> Res
         ),
     ];
 
-    let first = out.records.len();
+    let mut rec_routes: Vec<(usize, &'static str)> = vec![];
     let mut both_admitted: Vec<String> = vec![];
     let mut stop_mutating_in_both = false;
     for (form_name, cfg_name, lists_a, lists_c) in configs.iter() {
@@ -1437,6 +1437,7 @@ async fn access_file_case(case: &Case, case_hash: u64, out: &mut Outcome) -> Res
             info.class(format!("config/{cfg_name} (config.toml)"));
             info.class("phase/access-file");
             info.class(format!("answer/{}/{}", form_name, r.status));
+            rec_routes.push((out.records.len(), *rname));
             out.records.push(ReqRecord {
                 hash: hash_of(&(case_hash, "access-file", rname, cfg_name)),
                 info,
@@ -1461,12 +1462,8 @@ async fn access_file_case(case: &Case, case_hash: u64, out: &mut Outcome) -> Res
                 before = after;
             }
             if r.status == 101 {
-                for _ in 0..200 {
-                    if hb(num_connections(&w.client, &w.server).await, "connections")? == 0 {
-                        break;
-                    }
-                    tokio::time::sleep(std::time::Duration::from_millis(10)).await;
-                }
+                drop(r);
+                hb(wait_no_connections(&w.client, &w.server).await, "websocket close")?;
                 before = w.snap().await?;
             }
         }
@@ -1484,6 +1481,7 @@ async fn access_file_case(case: &Case, case_hash: u64, out: &mut Outcome) -> Res
         info.class(format!("config/{cfg_name}"));
         info.class("phase/access-file");
         info.class(format!("answer/{}/{}", form_name, r.status));
+        rec_routes.push((out.records.len(), "PUT new"));
         out.records.push(ReqRecord {
             hash: hash_of(&(case_hash, "access-file", "PUT new", cfg_name)),
             info,
@@ -1516,58 +1514,84 @@ async fn access_file_case(case: &Case, case_hash: u64, out: &mut Outcome) -> Res
             ),
         );
     }
-    // positive control without lists: the same requests are accepted
-    let opts = ServerOptions {
-        data_dir: Some(w.server.data_dir.clone()),
-        access: None,
-        sqlite: w.server.sqlite,
-    };
-    let placeholder = hb(spawn_server(opts).await, "restart server")?;
-    let old = std::mem::replace(&mut w.server, placeholder);
-    if let Some(tmp) = old.shutdown().await {
-        keep_dir(tmp);
-    }
-    let mut effective = 0;
-    let mut accepted = 0;
+    // positive control without lists: the same requests are accepted. Every
+    // control runs on a fresh copy of the (unchanged) data directory so that
+    // it meets exactly the state the refused request met.
+    let pristine = w.server.data_dir.clone();
+    let backend_sqlite = w.server.sqlite;
+    let copies = hb(
+        tempfile::Builder::new().prefix("sv-http-copies-").tempdir().map_err(|e| e.to_string()),
+        "tempdir",
+    )?;
+    let mut effective: std::collections::BTreeMap<&'static str, bool> = Default::default();
     let mut before = w.snap().await?;
-    for (rname, req, mutating) in reqs.iter() {
+    for (i, (rname, req, mutating)) in reqs.iter().enumerate() {
+        let copy = copies.path().join(format!("server-{i}"));
+        hb(copy_dir_all(&pristine, &copy), "copy data dir")?;
+        let opts = ServerOptions {
+            data_dir: Some(copy),
+            access: None,
+            sqlite: backend_sqlite,
+        };
+        let fresh = hb(spawn_server(opts).await, "restart server")?;
+        let old = std::mem::replace(&mut w.server, fresh);
+        if let Some(tmp) = old.shutdown().await {
+            keep_dir(tmp);
+        }
+        let start = w.snap().await?;
+        if i > 0 && *mutating && start.accounts != before.accounts {
+            // (sanity) every copy starts from the same account state
+            out.note(format!("access-file: copies of the data dir differ in account state: {}", before.diff(&start)));
+        }
+        if i == 0 {
+            before = start.clone();
+        }
         let r = w.valid(req).await?;
         let after = w.snap().await?;
         out.controls += 1;
-        if r.accepted() {
-            accepted += 1;
-        } else if !(r.status == 404 || r.status == 409 || r.status == 304) {
-            // 404/409: the fixture was consumed by an earlier control
-            // (e.g. the file was moved) - not a refusal of the credential
+        if !r.accepted() {
             return Err(Failure::new(
                 format!("harness/control-refused/{rname}"),
                 format!("HARNESS BUG: correctly signed {rname} without access lists returned {}", r.status),
             ));
         }
-        if *mutating && after != before {
-            effective += 1;
+        let changed = after != start;
+        if *mutating && changed {
             out.control_changed += 1;
         }
+        effective.insert(*rname, !*mutating || changed);
         if r.status == 101 {
-            for _ in 0..200 {
-                if hb(num_connections(&w.client, &w.server).await, "connections")? == 0 {
-                    break;
-                }
-                tokio::time::sleep(std::time::Duration::from_millis(10)).await;
-            }
-            before = w.snap().await?;
-        } else {
-            before = after;
+            drop(r);
+            hb(wait_no_connections(&w.client, &w.server).await, "websocket close")?;
         }
     }
-    let nontrivial = accepted >= 10 && effective >= 4;
-    for rec in out.records[first..].iter_mut() {
-        rec.info.nontrivial = nontrivial;
+    let before = w.snap().await?;
+    // creation control: account A was deleted by the last control, C is new
+    {
+        let req = RawRequest::new(Method::PUT, routes::ACCOUNT).with_signed_body(create_c.clone());
+        let r = hb(send_signed(&w.client, &w.server, &req, &w.c.device, &c_id).await, "send")?;
+        let after = w.snap().await?;
+        out.controls += 1;
+        if !r.is_2xx() {
+            return Err(Failure::new(
+                "harness/control-refused/PUT /sync/account (new account)",
+                format!("HARNESS BUG: creation of C without access lists returned {}", r.status),
+            ));
+        }
+        if after != before {
+            out.control_changed += 1;
+        }
+        effective.insert("PUT new", after != before);
     }
-    out.note(format!(
-        "access-file controls without lists: {accepted}/{} accepted, {effective} changed the server",
-        reqs.len()
-    ));
+    for (idx, rname) in rec_routes {
+        let nt = effective.get(rname).copied().unwrap_or(false);
+        out.records[idx].info.nontrivial = nt;
+        out.records[idx].info.class(if nt {
+            "control/accepted-and-effective"
+        } else {
+            "control/accepted-no-effect"
+        });
+    }
     let World { server, .. } = w;
     let _ = server.shutdown().await;
     drop_kept_dirs();
@@ -1651,7 +1675,7 @@ fn run(shard: &Shard, rep: &mut Report) {
         ("routes", Mode::Routes, shard.share(total_routes)),
         ("access-file", Mode::AccessFile, access_share),
     ] {
-        drive(shard, rep, sub, n, case_strategy().no_shrink(), |case| {
+        drive(shard, rep, sub, n, case_strategy(shard.index % 2 == 1).no_shrink(), |case| {
             let (info, failures, out) = run_case(case, mode);
             let res = choose_failure(shard, failures);
             let mut s = side.borrow_mut();
